@@ -7,6 +7,7 @@ import (
 	"github.com/lugu/qiloop/bus/net"
 	"github.com/lugu/qiloop/type/object"
 
+	"verif/rt/vnet"
 	"verif/rt/vrt"
 	"verif/scenarios/fx"
 	"verif/scenarios/probe"
@@ -773,9 +774,73 @@ func firstObject() {
 	vrt.Observe("how=%d", how)
 }
 
+// unreachableSubscriber: three connections follow tick of object a; the server cannot
+// write to one of them any more (its registration is still there: the loss has not been
+// noticed) when a is removed - locally or by a remote terminate. The subscribers on the
+// two healthy connections are told whatever the position of the unreachable one in the
+// list (seed C16-20 stopped telling at the first write that failed).
+func unreachableSubscriber() {
+	x := start()
+	x.add()
+	if len(x.objs) != 1 {
+		return
+	}
+	a := x.objs[0]
+	broken := vrt.ChooseFree(3, "which subscriber is unreachable")
+	remote := vrt.ChooseFree(2, "removed by a remote terminate") == 1
+	conns := []*fx.Conn{x.w.MustConnect(), x.w.MustConnect(), x.w.MustConnect()}
+	closed := make([]bool, 3)
+	for i, c := range conns {
+		i := i
+		_, ch, err := c.Probe(a.id).SubscribeTick()
+		if err != nil {
+			vrt.Failf("harness/subscribe", "%v", err)
+			return
+		}
+		vrt.GoNamed(fmt.Sprintf("sub-drain-%d", i), func() {
+			for range ch {
+			}
+			closed[i] = true
+		})
+	}
+	vrt.Quiesce()
+	conns[broken].Raw.Peer().OnOp = func(kind string, idx int) *vnet.Fault {
+		if kind == "write" {
+			return &vnet.Fault{Kind: "werr"}
+		}
+		return nil
+	}
+	vrt.Explore()
+	var err error
+	if remote {
+		err = a.proxy.Terminate(a.id)
+	} else {
+		err = x.w.Service.Remove(a.id)
+	}
+	vrt.Quiesce()
+	if !remote && err != nil {
+		vrt.Failf("remove-failed", "Remove with an unreachable subscriber failed: %v", err)
+	}
+	a.removed = true
+	if a.impl.Terminated != 1 {
+		vrt.Failf(fmt.Sprintf("terminate-hook-count/%d", a.impl.Terminated), "termination hook ran %d times with an unreachable subscriber (remote=%v)", a.impl.Terminated, remote)
+	}
+	for i := range conns {
+		if i != broken && !closed[i] {
+			vrt.Failf("subscriber-not-told", "object removed (remote terminate: %v) while the server could not write to subscriber %d: the subscriber on healthy connection %d was not told (its channel is still open)", remote, broken, i)
+		}
+	}
+	x.log = "remove-with-unreachable-subscriber;final-call"
+	x.call(a, 7)
+	fx.Settle()
+	vrt.Observe("broken=%d remote=%v closed=%v", broken, remote, closed)
+}
+
 func init() {
 	reg.Register(&reg.Scenario{Property: "C16", Name: "three-subscriptions-one-connection", Body: twoSubscriptions, Quick: 0, Thorough: 1,
 		Doc: "one connection follows two signals and the property of an object, with 0 / 30 / 130 unread events pending; the object is removed or terminated: every channel of the connection is closed"})
+	reg.Register(&reg.Scenario{Property: "C16", Name: "remove-with-unreachable-subscriber", Body: unreachableSubscriber, Quick: 0, Thorough: 1,
+		Doc: "three connections follow tick of an object, the server cannot write to one of them (first, middle or last registered) when the object is removed locally or terminated remotely: the hook runs once, the subscribers on the healthy connections are told, the object is unreachable"})
 	reg.Register(&reg.Scenario{Property: "C16", Name: "first-object-terminated", Body: firstObject, Quick: 0, Thorough: 1,
 		Doc: "the object a service was created with (id 1) is terminated remotely or removed: hook once, subscriber told, unreachable, the other objects keep answering"})
 	reg.Register(&reg.Scenario{Property: "C16", Name: "actor-second-life", Body: secondLife, Quick: 1, Thorough: 2,
